@@ -297,6 +297,41 @@ func (cpu *CPU) readU16(addr uint16) uint16 {
 }""")], note="package-level temporary between the two reads of a 16-bit load: only wrong if another CPU runs in between")
 
 
+# ---- C18 -------------------------------------------------------------------
+mutant("bdos-prints-dollar", ["C18"], [("internal/tinycpm/tinycpm.go", """	0x00, 0xc9, 0x1a, 0xfe, 0x24, 0xc8, 0xd3, 0x00, 0x13, 0x18, 0xf7,""", """	0x00, 0xc9, 0x1a, 0xd3, 0x00, 0xfe, 0x24, 0xc8, 0x13, 0x18, 0xf7,""")], note="function 9 prints the terminating $ - TestExerciser funccall_09h may catch it")
+mutant("io-out-drops-high-bytes", ["C18"], [("internal/tinycpm/tinycpm.go", """	b := []byte{value}
+	io.stdout.Write(b)""", """	b := []byte{value}
+	if value >= 0x80 && value&0x7f < 0x20 {
+		return
+	}
+	io.stdout.Write(b)""")], note="console filters high control bytes")
+mutant("io-out-buffers-two-bytes", ["C18"], [("internal/tinycpm/tinycpm.go", """type IO struct {
+	stdout io.Writer
+	warnl  *log.Logger
+}""", """type IO struct {
+	stdout io.Writer
+	warnl  *log.Logger
+	held   []byte
+}"""), ("internal/tinycpm/tinycpm.go", """	b := []byte{value}
+	io.stdout.Write(b)""", """	io.held = append(io.held, value)
+	if len(io.held) < 2 && value != 0x0a {
+		return
+	}
+	io.stdout.Write(io.held)
+	io.held = io.held[:0]""")], note="output buffered in pairs: the last byte of an odd-length stream never reaches the writer")
+mutant("io-out-retries-on-error", ["C18"], [("internal/tinycpm/tinycpm.go", """	b := []byte{value}
+	io.stdout.Write(b)""", """	b := []byte{value}
+	if n, err := io.stdout.Write(b); err != nil && n == 1 {
+		io.stdout.Write(b)
+	}""")], note="retry after an error although the byte was taken: duplicate under writer faults only")
+mutant("in-port-no-warning", ["C18"], [("internal/tinycpm/tinycpm.go", """	io.warnl.Printf("not impl. I/O In addr=0x%02x", addr)
+	return 0""", """	if addr != 0 {
+		io.warnl.Printf("not impl. I/O In addr=0x%02x", addr)
+	}
+	return 0""")], note="reading port 0 silently accepted")
+mutant("bdos-clobbers-stack-on-long-string", ["C18"], [("internal/tinycpm/tinycpm.go", """	0x00, 0xc9, 0x1a, 0xfe, 0x24, 0xc8, 0xd3, 0x00, 0x13, 0x18, 0xf7,""", """	0x00, 0xc9, 0x1a, 0xfe, 0x24, 0xc8, 0xd3, 0x00, 0x1c, 0x18, 0xf7,""")], note="INC E instead of INC DE: strings crossing a 256-byte page repeat/print garbage")
+
+
 def run(cmd, **kw):
     return subprocess.run(cmd, stdout=subprocess.PIPE, stderr=subprocess.STDOUT, text=True, **kw)
 
